@@ -85,6 +85,7 @@ def cases():
     yield ("copies: media css mathjax pages incl_src externalize", "src_dir: ./src\noutput_dir: ./doc\ngraph: false\nmedia_dir: ./media\ncss: ./my.css\nmathjax_config: ./mj.js\n"
            "page_dir: ./pages\nincl_src: true\nexternalize: true\n", None, ("proj/doc",), False)
     yield ("graphs with a separate graph_dir", "src_dir: ./src\noutput_dir: ./doc\ngraph: true\ngraph_dir: ./graphs\n", None, ("proj/doc", "proj/graphs"), False)
+    yield ("graphs without a graph_dir, serial", "src_dir: ./src\noutput_dir: ./doc\ngraph: true\nparallel: 0\n", None, ("proj/doc",), False)
     yield ("output equals source dir", "src_dir: ./src\noutput_dir: ./src\ngraph: false\n", None, ("proj/src",), True)
     yield ("output above source dir", "src_dir: ./code/src\noutput_dir: ./code\ngraph: false\n", {"proj/code/src/m.f90": SRC, "proj/code/notes.txt": "n"}, ("proj/nothing",), True)
     yield ("second source dir inside output", "src_dir: ./src\n    ./doc/gen\noutput_dir: ./doc\ngraph: false\n", {"proj/doc/gen/g.f90": SRC}, ("proj/nothing",), True)
